@@ -17,10 +17,10 @@ Definition msg_eqb (a b : msg) : bool :=
   match a, b with
   | MRequest p t rid pt d dc, MRequest p' t' rid' pt' d' dc' =>
       proto_eqb p p' && N.eqb t t' && N.eqb rid rid' && N.eqb pt pt' && N.eqb d d' && odoc_eqb dc dc'
-  | MResponse p t d dc s, MResponse p' t' d' dc' s' =>
-      proto_eqb p p' && N.eqb t t' && N.eqb d d' && odoc_eqb dc dc' &&
+  | MResponse p t dt d dc s, MResponse p' t' dt' d' dc' s' =>
+      proto_eqb p p' && N.eqb t t' && N.eqb dt dt' && N.eqb d d' && odoc_eqb dc dc' &&
       match p with DX => true | LC => N.eqb s s' end     (* only the legacy response carries a signature *)
-  | MComplete p t, MComplete p' t' => proto_eqb p p' && N.eqb t t'
+  | MComplete p t dt, MComplete p' t' dt' => proto_eqb p p' && N.eqb t t' && N.eqb dt dt'
   | MPing f t, MPing f' t' => N.eqb f f' && N.eqb t t'
   | MPingV2 f t, MPingV2 f' t' => N.eqb f f' && N.eqb t t'
   | MInit d f t, MInit d' f' t' => doc_eqb d d' && N.eqb f f' && N.eqb t t'
